@@ -18,16 +18,28 @@ def run(name, seed, args):
 
 
 # ------------------------------------------------------------------------------------------------ C20
+_LIBRARY_IDS = [False]      # True: values are wrapped the way the library wraps them (HashedValue(v): its own id rule)
+_ATOMS = {}
+
+
 def _mk(v):
     from entity_query_language.hashed_data import HashedValue
+    if _LIBRARY_IDS[0]:
+        # one Python object per distinct (type, value) of the alphabet, wrapped WITHOUT an explicit id: two values are the same
+        # key exactly when they are the same object, whatever their hash (hash(-1) == hash(-2), hash(1) == hash(True))
+        return HashedValue(_ATOMS.setdefault((type(v).__name__, v), v))
     return HashedValue(v, id_=hash((type(v).__name__, v)))     # equal values share an id; False, '' and () do not
+
+
+def _same(a, b):
+    return type(a) is type(b) and a == b
 
 
 def cache_reference(keys, inserts):
     """abstract view: list of (binding, output) in insertion order, later insert with the same full path overwrites"""
     entries = {}
     for b, o in inserts:
-        path = tuple(b.get(k, '*') for k in keys)
+        path = tuple((type(b[k]).__name__, b[k]) if k in b else '*' for k in keys)      # True and 1 are different values
         entries[path] = (dict(b), o)
     return entries
 
@@ -64,22 +76,22 @@ def cache_case(keys, inserts, lookup):
     q = {k: _mk(v) for k, v in lookup.items()}
     # coverage
     if lookup:
-        want_cov = any(all(k in lookup and lookup[k] == v for k, v in b.items()) for b in stored)
+        want_cov = any(all(k in lookup and _same(lookup[k], v) for k, v in b.items()) for b in stored)
         got_cov = c.check(dict(q))
         if bool(got_cov) != want_cov:
             return {'what': 'check', 'keys': list(keys), 'inserts': history, 'lookup': lookup, 'got': bool(got_cov), 'want': want_cov}
     # retrieval: every stored entry agreeing with the lookup on every key they share, each once, merged
     want, want_paths = [], {}
     for path, (b, o) in entries.items():
-        if all(lookup[k] == b[k] for k in b if k in lookup):
+        if all(_same(lookup[k], b[k]) for k in b if k in lookup):
             merged = dict(lookup)
             merged.update(b)
-            item = (tuple(sorted(merged.items())), o)
+            item = (tuple(sorted((k, repr(v)) for k, v in merged.items())), o)
             want.append(item)
             want_paths[item] = path
     got = []
     for res, o in c.retrieve(dict(q)):
-        got.append((tuple(sorted((k, v.value) for k, v in res.items())), o))
+        got.append((tuple(sorted((k, repr(v.value)) for k, v in res.items())), o))
     if sorted(got, key=repr) != sorted(want, key=repr):
         missing = set(want) - set(got)
         kind = 'missing' if missing else ('extra' if set(got) - set(want) else 'multiplicity')
@@ -107,6 +119,8 @@ def cache_case(keys, inserts, lookup):
 def standin_C20_cache(seed, args):
     nkeys = args.get('nkeys', 2)
     alphabet = args.get('alphabet', ['a', 'b'])
+    _LIBRARY_IDS[0] = bool(args.get('library_ids'))
+    _ATOMS.clear()
     max_inserts = args.get('max_inserts', 2)
     budget = args.get('budget_s', 120)
     keys = list(range(1, nkeys + 1))
